@@ -12,6 +12,7 @@ import CfbVerif.Phys.NoLeakMini
 import CfbVerif.Phys.Marks
 import CfbVerif.Phys.ChainLen
 import CfbVerif.Phys.LogRange
+import CfbVerif.Phys.MiniLen
 /-!
 # C03 — every produced image is a well-formed MS-CFB file by an independent checker
 
@@ -312,6 +313,38 @@ theorem C03_chain_length_matches_size (v4 : Bool) (ops : List GOp) :
   show (decide (CUTOFF ≤ g.L slot) && (start != END)) = true
   simp [hc, hne']
 
+/-- **each mini stream's chain length matches its size**: in the same histories (with the MiniFAT
+within the range of mini sector numbers between operations), a stream below 4096 bytes has no start
+sector when it is empty, and otherwise the walk through the MiniFAT from its start succeeds and
+returns exactly `⌈length / 64⌉` mini sectors -/
+theorem C03_mini_chain_length_matches_size (v4 : Bool) (ops : List GOp) :
+    let g0 : G := { p := Phys.create v4, L := fun _ => 0 }
+    let g := grun g0 ops
+    WritesInRange g0 ops → MiniBounded g0 ops → g.p.fat.size ≤ MAXREG + 1 →
+    ∀ slot start : Nat, (slot, start) ∈ g.p.starts → g.L slot < CUTOFF →
+      (g.L slot = 0 → start = END) ∧
+      (0 < g.L slot → start ≠ END ∧ ∃ l, miniChainIds g.p start = .ok l ∧ l.length = (g.L slot + MINI - 1) / MINI) := by
+  intro g0 g hw hm hb slot start hmem hc
+  have j := lengths_reachable v4 ops hw hm hb
+  obtain ⟨h0, h1⟩ := j.ml (slot, start) hmem hc
+  refine ⟨h0, fun hp => ?_⟩
+  obtain ⟨hne, l, cl, hl⟩ := h1 hp
+  refine ⟨hne, l, chainFrom_of_isChain j.jm.nc.ns (h := start) ?_ cl, hl⟩
+  unfold mregs
+  refine List.mem_map.mpr ⟨(slot, start), List.mem_filter.mpr ⟨hmem, ?_⟩, rfl⟩
+  have hne' : start ≠ END := hne
+  show (decide (g.L slot < CUTOFF) && (start != END)) = true
+  simp [hc, hne']
+
+/-- the same with the mini chains and their lengths: a handle call keeps the whole allocation-level
+invariant `JA` (regular chains, mini chains, sector sizes, both kinds of chain length) -/
+theorem C03_handle_call_keeps_all_lengths (h : Handle.H) (st : Handle.Bytes) (hi : Handle.Inv h st) (op : Handle.DOp)
+    {p p' : P} {L : Nat → Nat} {slot : Nat} (hL : L slot = st.length)
+    (ha : applyLogPhys p slot (L slot) (stepDL h st op) = .ok p') (j : JA p L)
+    (hm : LogMiniBounded slot p (L slot) (stepDL h st op)) (hb : p'.fat.size ≤ MAXREG + 1) :
+    JA p' (upd L slot (Handle.stepD h st op).2.1.length) :=
+  ja_handleCall h st hi op hL ha j hm hb
+
 /-- **a stream handle's calls keep that state**: in every state that satisfies the handle invariant
 (C06), every write the call issues starts at or before the end of the stream, and its store
 operations — replayed on the allocation level from the stream's length — keep no-sharing, no-leak,
@@ -351,5 +384,18 @@ example : WritesInRange { p := Phys.create false, L := fun _ => 0 } exOps2 := wr
 example : (grun { p := Phys.create false, L := fun _ => 0 } exOps2).p.fat.size ≤ MAXREG + 1 := by decide +kernel
 example : (grun { p := Phys.create false, L := fun _ => 0 } exOps2).L 2 = 9300 ∧
     (grun { p := Phys.create false, L := fun _ => 0 } exOps2).L 3 = 4160 := by decide +kernel
+
+/-- … and one that leaves a mini stream of 300 bytes (5 mini sectors) beside the regular ones -/
+def exOps3 : List GOp := exOps ++ [.write 3 100 (List.replicate 200 1), .resize 2 5000]
+
+example : WritesInRange { p := Phys.create false, L := fun _ => 0 } exOps3 := writesInRange_of_B _ _ (by decide +kernel)
+example : MiniBounded { p := Phys.create false, L := fun _ => 0 } exOps3 := miniBounded_of_B _ _ (by decide +kernel)
+example : (grun { p := Phys.create false, L := fun _ => 0 } exOps3).p.fat.size ≤ MAXREG + 1 := by decide +kernel
+example : (grun { p := Phys.create false, L := fun _ => 0 } exOps3).L 3 = 300 ∧
+    (match miniChainIds (grun { p := Phys.create false, L := fun _ => 0 } exOps3).p
+      (startOf (grun { p := Phys.create false, L := fun _ => 0 } exOps3).p 3) with
+      | .ok l => l.length
+      | _ => 0) = 5 := by
+  decide +kernel
 
 end CfbVerif.Props.C03
